@@ -727,11 +727,19 @@ def _next_may_start_with_digit(rest):
     return not (n.first_not_digit or DIGITS <= n.excludes)
 
 
-def variable_pattern_search(s):
+def variable_pattern_search(s, pat=None):
     """re.compile(FlowIR.VariablePattern).search(s): a %(name)s reference needs '%'"""
     S = lift(s)
     if S.is_literal():
         return None        # caller runs the real regex on literals
+    if pat is not None:
+        import re as _re
+        for seg in S.segs:
+            if isinstance(seg, Lit):
+                m = _re.search(pat, seg.text)
+                if m is not None:
+                    # a whole match inside one literal segment: found whatever the symbolic parts are
+                    return MatchObj([m.group(0)] + list(m.groups()))
     if not any(S.may_contain('%', x) for x in S.segs):
         return None
     raise OutsideSubset("variable pattern on %r" % S)
